@@ -128,7 +128,10 @@ Proof. intros. unfold st, P, run_ops, step_state, step, op_pair. cbn [fold_left 
 
 
 # ---------------------------------------------------------------------------------------------------------
-def _gen_op(rng, tier):
+def _gen_op(rng, tier, wild=True):
+    """wild: also steps outside the documented argument domain (non-affine explicit matrices without an inverse,
+    non-orthogonal matrices passed to rotate): the model mirrors the code there too (cofactor inverse vs
+    np.linalg.inv, transpose as 'inverse'); the oracle judges only what the property states for them"""
     u = rng.random()
     sc = 2.0 ** rng.randint(-3, 3) if tier != "thorough" else 2.0 ** rng.randint(-8, 8)
     if u < 0.12:
@@ -157,6 +160,8 @@ def _gen_op(rng, tier):
     if u < 0.58:
         return {"op": "translate", "t": [x * sc for x in grid_vec(rng)]}
     if u < 0.68:
+        if wild and rng.random() < 0.3:
+            return {"op": "rotate_matrix", "r": [grid_vec(rng, -2, 2) for _ in range(3)], "nonorth": True}
         return {"op": "rotate_matrix", "r": _c11._quat_rotation(rng)}
     if u < 0.76:
         r = [x * rng.choice([0.25, 1.0, 1.0]) for x in grid_vec(rng)]
@@ -185,12 +190,18 @@ def _gen_op(rng, tier):
             for i in range(4):
                 m[i][1] = 0.0  # a zero column: exactly singular, LU meets an exact zero pivot
         return {"op": "append", "f": m, "r": None}
+    if wild and v < 0.3:
+        # arbitrary invertible 4x4 (projective), inverse left to np.linalg.inv
+        while True:
+            m = _c11._grid_m4(rng, False)
+            if abs(np.linalg.det(np.array(m))) >= 1.0 and m[3] != [0.0, 0.0, 0.0, 1.0]:
+                return {"op": "append", "f": m, "r": None, "projective": True}
     while True:
         m = _c11._grid_m4(rng, True)
         d = np.linalg.det(np.array(m))
         if abs(d) >= 1.0:
             break
-    if v < 0.55:
+    if v < 0.6:
         return {"op": "append", "f": m, "r": None}
     inv = np.linalg.inv(np.array(m))
     inv[3] = [0.0, 0.0, 0.0, 1.0]
@@ -325,7 +336,8 @@ def run_impl(c):
             else:
                 r = {"index": int(r), "len_before": before, "len_after": len(ct.transforms)}
             r["factor"] = float(ounce.factor(e["from"], e["to"])) if e["op"] == "convert_units" else None
-            _count("op:%s/%s" % (e["op"] + ("+inverse" if e["op"] == "append" and e["r"] is not None else ""),
+            _count("op:%s/%s" % (e["op"] + ("+inverse" if e["op"] == "append" and e["r"] is not None else "")
+                                 + ("/projective" if e.get("projective") else "") + ("/non_orthogonal" if e.get("nonorth") else ""),
                                  r.get("raise", "accepted")))
             obs.append(r)
         pairs = [[np.asarray(f, dtype=np.float64).reshape(-1).tolist(), np.asarray(i, dtype=np.float64).reshape(-1).tolist()]
@@ -481,11 +493,13 @@ def oracle(c, o):
     probe = [Fr(1, 2), Fr(-3), Fr(5, 4)]
     for i, ((op, act), f, r) in enumerate(zip(actions, fw, iv)):
         mag = max([1] + [abs(x) for row in f + r for x in row])
-        if f[3] != [0, 0, 0, 1]:
+        if f[3] != [0, 0, 0, 1] and not op.get("projective"):
             return "step %d (%s): forward matrix is not affine" % (i, op["op"])
-        if not _near_I(_mm(r, f), TOL * mag * mag) or not _near_I(_mm(f, r), TOL * mag * mag):
-            return "step %d (%s): stored inverse does not undo the stored forward matrix" % (i, op["op"])
-        if op["op"] in ("rotate_rodrigues", "reorient", "rotate_matrix"):
+        # a non-orthogonal matrix handed to rotate() is not a rotation: the property promises no inverse for it
+        if not op.get("nonorth"):
+            if not _near_I(_mm(r, f), TOL * mag * mag) or not _near_I(_mm(f, r), TOL * mag * mag):
+                return "step %d (%s): stored inverse does not undo the stored forward matrix" % (i, op["op"])
+        if op["op"] in ("rotate_rodrigues", "reorient", "rotate_matrix") and not op.get("nonorth"):
             # whatever the parametrisation, a rotation step stores a proper rotation about the origin
             blk = [row[:3] for row in f[:3]]
             bad = _c11._proper(blk, "step %d (%s)" % (i, op["op"]), Fr(1, 10 ** 9))
@@ -527,6 +541,9 @@ def oracle(c, o):
             continue
         w = 0 if qu["asvec"] else 1
         ncol = 2 if qu["discard"] else 3
+        sel_ops = [actions[i][0] for i in (reversed(idx) if qu["rev"] else idx)]
+        projective_inside = any(op_.get("projective") for op_ in sel_ops[:-1])  # followed by another step
+        no_round_trip = any(op_.get("projective") or op_.get("nonorth") for op_ in sel_ops)
         k = len(qu["points"])
         if ob["stack_shape"] != [k, ncol]:
             return "__call__: stacked result has shape %r" % ob["stack_shape"]
@@ -538,6 +555,17 @@ def oracle(c, o):
             for m in seq:
                 cur = _apply(m, cur, w)
             got = _F(ob["full"][j])
+            if projective_inside and any(abs(a - b) > TOL * mag * pm for a, b in zip(cur, got)):
+                # what the call must still be: the composed matrix applied once (C11 apply clause)
+                prod = [[Fr(int(a_ == b_)) for b_ in range(4)] for a_ in range(4)]
+                for m in seq:
+                    prod = _mm(m, prod)
+                once = _apply(prod, _F(p), w)
+                if any(abs(a - b) > TOL * mag * pm for a, b in zip(once, got)):
+                    return "__call__(from_range=%r, reverse=%r) is not the composed matrix applied to the points" % (r, qu["rev"])
+                return ("NONAFFINE __call__(from_range=%r, reverse=%r) over a non-affine explicit step followed by another step "
+                        "differs from applying the steps one after another (apply_transform drops w without dividing)"
+                        % (r, qu["rev"]))
             if any(abs(a - b) > TOL * mag * pm for a, b in zip(cur, got)):
                 return ("__call__(from_range=%r, reverse=%r, vector=%r, %s points) with %d steps appended differs from applying the "
                         "selected steps one after another" % (r, qu["rev"], qu["asvec"], "int64" if qu.get("int") else "float64", n))
@@ -546,7 +574,7 @@ def oracle(c, o):
             if ob["single_shapes"][j] != [ncol] or any(abs(Fr(a) - Fr(b)) > TOL * mag * pm for a, b in zip(ob["singles"][j], ob["stack"][j])):
                 return "single point and stacked row %d differ" % j
             back = _F(ob["back"][j])
-            if any(abs(a - b) > TOL * mag * mag * pm for a, b in zip(back, _F(p))):
+            if not no_round_trip and any(abs(a - b) > TOL * mag * mag * pm for a, b in zip(back, _F(p))):
                 return "reverse does not undo forward on from_range=%r (vector=%r)" % (r, qu["asvec"])
             if qu["asvec"]:
                 # translations have no effect on vectors
@@ -561,4 +589,8 @@ def oracle(c, o):
 
 
 def classify(c, o, failure, disagrees):
+    """the C11 finding compose_non_affine seen through CompositeTransform: a non-affine explicit step followed by
+    another step; only the sequential-action clause, only when model and implementation agree"""
+    if failure and failure.startswith("NONAFFINE ") and not disagrees:
+        return "compose_non_affine"
     return None
